@@ -110,8 +110,11 @@ def run(R, env):
     rem, n = world_edges(h, nba, True)
     w = h.with_removed(rem).settle()
     R.worlds += 2
-    DG = deadline_guard("batch-period", is_block_seconds, lambda t: t[0] == "payload" and nba(t[1]), {"<"})
+    # (in this world — a deadline is stored — `next_batch_action_time.unwrap_or(k)` is the stored deadline too)
+    nba_val = lambda t: (t[0] == "payload" and nba(t[1])) or (t[0] == "call" and t[1] in ("std::option::Option::unwrap_or", "std::option::Option::unwrap_or_default", "std::option::Option::unwrap_or_else") and t[2] and nba(t[2][0]))
+    DG = deadline_guard("batch-period", is_block_seconds, nba_val, {"<"})
     found = []
+    w = w.assume_ok(nba, True).settle()
     ok, off = guarded(w, DG, prog, env.depth, found)
     R.ob("C06.R3", "SubmitBatch:deadline", n >= 1 and ok, "SubmitBatch can succeed without `reject iff now < next_batch_action_time` (comparisons seen %s): %s" % (DG.seen, off), fn=hk, found=found)
     rem, n2 = world_edges(h, nba, False)
